@@ -17,59 +17,114 @@ const vMaxMods = 6
 
 // ---- C10-A getModuleDeps ----
 
-// VerifLemma_C10A_ModuleDeps: 1..N stub modules in a real moduleSet (real getModuleForFilePath), module i owns the
-// file vProtoName(i) which imports any subset of the other modules' files (cycles and self-imports of the own
-// module's second file included); one nondet module may also import a well-known type that no module provides and
-// one an unresolvable path. For every root module:
-//   - the root lies on a module import cycle            => *ModuleCycleError
-//   - a reachable module imports the unresolvable path  => *ImportNotExistError
-//   - otherwise deps = exactly the modules reachable through imports (root excluded), sorted by OpaqueID, each once,
-//     IsDirect <=> imported by a file of the root, Parent imports the dep.
-func VerifLemma_C10A_ModuleDeps() {
-	ctx := context.Background()
-	n := verifNondetChoice(verifParam("N")) + 1
-	adj := [vMaxMods][vMaxMods]bool{}
+const vWKTPath = "google/protobuf/any.proto"
+
+// vWorkspace is a nondet workspace description shared by the stub and the real-module variant of C10-A.
+// Module i owns vProtoName(i) (imports: see below) and "q/"+vProtoName(i) (imports the module's own first file:
+// never a dependency). adj[i][j]: the first file of module i imports the first file of module j.
+// At most one extra feature is present (EXTRA=1):
+//   - wkt:  module wktImporter imports google/protobuf/any.proto, which module wktProvider ships (or nobody: -1).
+//     A provided well-known type is an ordinary import: it makes wktProvider a dependency.
+//   - bad:  module badImporter imports a path that nobody provides.
+//   - dup:  module dupHolder also ships a copy of module dupOwner's first file (a .proto path in two modules).
+type vWorkspace struct {
+	n           int
+	adj         [vMaxMods][vMaxMods]bool // effective module edges (incl. the wkt edge)
+	imports     [vMaxMods][]string
+	extraFile   [vMaxMods]string // additional import-free .proto file shipped by module i ("" = none)
+	badImporter int
+	dupHolder   int
+	dupOwner    int
+}
+
+func vNondetWorkspace(maxN int, extra bool) *vWorkspace {
+	w := &vWorkspace{badImporter: -1, dupHolder: -1, dupOwner: -1}
+	w.n = verifNondetChoice(maxN) + 1
+	n := w.n
 	for i := 0; i < n; i++ {
 		for j := 0; j < n; j++ {
 			if i != j && verifNondetBool() {
-				adj[i][j] = true
+				w.adj[i][j] = true
 			}
 		}
 	}
-	wktImporter, badImporter := -1, -1
-	if verifParam("EXTRA") != 0 {
-		wktImporter = verifNondetChoice(n+1) - 1
-		badImporter = verifNondetChoice(n+1) - 1
+	wktImporter, wktProvider := -1, -1
+	if extra {
+		nWkt, nBad, nDup := n*(n+1), n, n*(n-1)
+		mode := verifNondetChoice(1 + nWkt + nBad + nDup)
+		switch {
+		case mode == 0:
+		case mode <= nWkt:
+			m := mode - 1
+			wktImporter, wktProvider = m/(n+1), m%(n+1)-1
+		case mode <= nWkt+nBad:
+			w.badImporter = mode - 1 - nWkt
+		default:
+			m := mode - 1 - nWkt - nBad
+			w.dupHolder = m / (n - 1)
+			w.dupOwner = m % (n - 1)
+			if w.dupOwner >= w.dupHolder {
+				w.dupOwner++
+			}
+		}
 	}
 	descending := verifNondetBool()
-	mods := make([]*vModule, n)
-	modules := make([]Module, n)
 	for i := 0; i < n; i++ {
-		var imports []string
 		if i == wktImporter {
-			imports = append(imports, "google/protobuf/any.proto")
+			w.imports[i] = append(w.imports[i], vWKTPath)
 		}
 		for k := 0; k < n; k++ {
 			j := k
 			if descending {
 				j = n - 1 - k
 			}
-			if adj[i][j] {
-				imports = append(imports, vProtoName(j))
+			if w.adj[i][j] {
+				w.imports[i] = append(w.imports[i], vProtoName(j))
 			}
 		}
-		if i == badImporter {
-			imports = append(imports, "zz/none.proto")
+		if i == w.badImporter {
+			w.imports[i] = append(w.imports[i], "zz/none.proto")
 		}
+		if i == wktProvider {
+			w.extraFile[i] = vWKTPath
+		}
+		if i == w.dupHolder {
+			w.extraFile[i] = vProtoName(w.dupOwner)
+		}
+	}
+	if wktImporter >= 0 && wktProvider >= 0 && wktImporter != wktProvider {
+		w.adj[wktImporter][wktProvider] = true
+	}
+	return w
+}
+
+// VerifLemma_C10A_ModuleDeps: 1..N stub modules in a real moduleSet (real getModuleForFilePath) built from a
+// vWorkspace. For every root module:
+//   - the root lies on a module import cycle                                => *ModuleCycleError
+//   - a walked module imports a path nobody provides                        => *ImportNotExistError
+//   - a walked module imports a path that two modules provide (even if one
+//     of them is the importer itself), or both providers are walked         => *DuplicateProtoPathError
+//   - otherwise deps = exactly the modules reachable through imports (root excluded; a module shipping an imported
+//     well-known type included, an unprovided well-known type ignored), sorted by OpaqueID, each once,
+//     IsDirect <=> imported by a file of the root, Parent imports the dep.
+func VerifLemma_C10A_ModuleDeps() {
+	ctx := context.Background()
+	w := vNondetWorkspace(verifParam("N"), verifParam("EXTRA") != 0)
+	n := w.n
+	mods := make([]*vModule, n)
+	modules := make([]Module, n)
+	for i := 0; i < n; i++ {
 		mods[i] = &vModule{
 			opaqueID: vModuleName(i),
 			isTarget: true,
 			isLocal:  true,
 			files: []vFileSpec{
-				{path: vProtoName(i), fileType: FileTypeProto, imports: imports},
-				// A second file importing the module's own first file: never a dependency.
+				{path: vProtoName(i), fileType: FileTypeProto, imports: w.imports[i]},
 				{path: "q/" + vProtoName(i), fileType: FileTypeProto, imports: []string{vProtoName(i)}},
 			},
+		}
+		if w.extraFile[i] != "" {
+			mods[i].files = append(mods[i].files, vFileSpec{path: w.extraFile[i], fileType: FileTypeProto})
 		}
 		modules[i] = mods[i]
 	}
@@ -81,11 +136,12 @@ func VerifLemma_C10A_ModuleDeps() {
 	root := verifNondetChoice(n)
 	verifCover("workspace built")
 	deps, err := getModuleDeps(ctx, mods[root])
-	vCheckModuleDeps(n, adj, root, badImporter, mods[root].Description(), deps, err)
+	vCheckModuleDeps(w, root, mods[root].Description(), deps, err)
 }
 
 // vCheckModuleDeps compares the result of getModuleDeps for module root against the reference closure of adj.
-func vCheckModuleDeps(n int, adj [vMaxMods][vMaxMods]bool, root int, badImporter int, rootDescription string, deps []ModuleDep, err error) {
+func vCheckModuleDeps(w *vWorkspace, root int, rootDescription string, deps []ModuleDep, err error) {
+	n, adj, badImporter := w.n, w.adj, w.badImporter
 
 	reach := adj
 	for k := 0; k < n; k++ {
@@ -99,8 +155,11 @@ func vCheckModuleDeps(n int, adj [vMaxMods][vMaxMods]bool, root int, badImporter
 	}
 	rootOnCycle := reach[root][root]
 	badReachable := badImporter >= 0 && (badImporter == root || reach[root][badImporter])
-	if rootOnCycle || badReachable {
-		verifAssert(err != nil, "cycle through the module or unresolvable import is an error")
+	// The duplicated path is the first file of dupOwner: it is looked up as soon as dupOwner is walked (its own
+	// second file imports it) or any walked module imports it, i.e. iff dupOwner is the root or reachable.
+	dupHit := w.dupOwner >= 0 && (w.dupOwner == root || reach[root][w.dupOwner])
+	if rootOnCycle || badReachable || dupHit {
+		verifAssert(err != nil, "cycle through the module, unresolvable import or doubly provided import is an error")
 		if err == nil {
 			return
 		}
@@ -108,7 +167,20 @@ func vCheckModuleDeps(n int, adj [vMaxMods][vMaxMods]bool, root int, badImporter
 		var importErr *ImportNotExistError
 		isCycle := errors.As(err, &cycleErr)
 		isImport := errors.As(err, &importErr)
-		verifAssert(isCycle || isImport, "error is a ModuleCycleError or an ImportNotExistError")
+		isDup := false
+		for _, e := range vJoinedErrors(err) {
+			var dupErr *DuplicateProtoPathError
+			if errors.As(e, &dupErr) {
+				isDup = true
+				verifAssert(dupErr.ProtoPath == vProtoName(w.dupOwner), "DuplicateProtoPathError names the doubly provided path")
+				verifAssert(len(dupErr.ModuleDescriptions) == 2, "DuplicateProtoPathError names both providers")
+			}
+		}
+		verifAssert(isCycle || isImport || isDup, "error is a ModuleCycleError, ImportNotExistError or DuplicateProtoPathError")
+		if isDup {
+			verifCover("duplicate path reported")
+			verifAssert(dupHit, "DuplicateProtoPathError only when the doubly provided path is looked up")
+		}
 		if isCycle {
 			verifCover("module cycle reported")
 			verifAssert(rootOnCycle, "ModuleCycleError only when the module is on a cycle")
@@ -167,36 +239,24 @@ func vCheckModuleDeps(n int, adj [vMaxMods][vMaxMods]bool, root int, badImporter
 // real newModuleSet, Module.ModuleDeps().
 func VerifLemma_C10A_ModuleDepsReal() {
 	ctx := context.Background()
-	n := verifNondetChoice(verifParam("N")) + 1
-	adj := [vMaxMods][vMaxMods]bool{}
-	for i := 0; i < n; i++ {
-		for j := 0; j < n; j++ {
-			if i != j && verifNondetBool() {
-				adj[i][j] = true
-			}
-		}
-	}
-	wktImporter := verifNondetChoice(n+1) - 1
-	badImporter := verifNondetChoice(n+1) - 1
+	w := vNondetWorkspace(verifParam("N"), verifParam("EXTRA") != 0)
+	n := w.n
 	modules := make([]Module, n)
 	for i := 0; i < n; i++ {
 		src := "syntax = \"proto3\";\npackage p" + vModuleName(i) + ";\n"
-		if i == wktImporter {
-			src += "import \"google/protobuf/any.proto\";\n"
-		}
-		for j := 0; j < n; j++ {
-			if adj[i][j] {
-				src += "import \"" + vProtoName(j) + "\";\n"
-			}
-		}
-		if i == badImporter {
-			src += "import \"zz/none.proto\";\n"
+		for _, imp := range w.imports[i] {
+			src += "import \"" + imp + "\";\n"
 		}
 		src += "message M {}\n"
-		bucket, err := storagemem.NewReadBucket(map[string][]byte{
-			vProtoName(i): []byte(src),
-			"LICENSE":     []byte("license"),
-		})
+		data := map[string][]byte{
+			vProtoName(i):        []byte(src),
+			"q/" + vProtoName(i): []byte("syntax = \"proto3\";\nimport \"" + vProtoName(i) + "\";\n"),
+			"LICENSE":            []byte("license"),
+		}
+		if w.extraFile[i] != "" {
+			data[w.extraFile[i]] = []byte("syntax = \"proto3\";\nmessage Extra {}\n")
+		}
+		bucket, err := storagemem.NewReadBucket(data)
 		verifAssert(err == nil, "memory bucket")
 		module, err := newModule(
 			ctx,
@@ -221,7 +281,7 @@ func VerifLemma_C10A_ModuleDepsReal() {
 	root := verifNondetChoice(n)
 	verifCover("workspace built")
 	deps, err := modules[root].ModuleDeps()
-	vCheckModuleDeps(n, adj, root, badImporter, modules[root].Description(), deps, err)
+	vCheckModuleDeps(w, root, modules[root].Description(), deps, err)
 }
 
 // ---- C10-B selectAddedModuleForOpaqueID ----
@@ -283,9 +343,24 @@ func VerifLemma_C10B_SelectAddedModule() {
 		}
 	}
 	verifCover("candidates built")
-	input := make([]*addedModule, k)
-	copy(input, candidates)
-	got, err := selectAddedModuleForOpaqueID(ctx, provider, input)
+	// The function under test ranges over Go maps, whose native iteration order is random and cannot be driven by
+	// a replay. The engine explores every map order on its own (opts.nondetMapOrder); natively the call and its
+	// checks are repeated so that an order-dependent violation found by the engine also shows up in the replay.
+	repeats := 1
+	if !verifInEngine() {
+		repeats = 64
+	}
+	for r := 0; r < repeats; r++ {
+		provider.calls = 0
+		input := make([]*addedModule, k)
+		copy(input, candidates)
+		got, err := selectAddedModuleForOpaqueID(ctx, provider, input)
+		vCheckSelected(k, candidates, isLocal, isTarget, commitOf, provider, got, err)
+	}
+}
+
+// vCheckSelected compares one result of selectAddedModuleForOpaqueID against the reference rule.
+func vCheckSelected(k int, candidates []*addedModule, isLocal [vMaxMods]bool, isTarget [vMaxMods]bool, commitOf [vMaxMods]int, provider *vCommitProvider, got *addedModule, err error) {
 
 	// Reference.
 	anyTarget := false
